@@ -457,6 +457,15 @@ public:
                                  right.term_of_var(p.first), gen_map))
           return false;
       }
+      // A variable that only appears in right is unconstrained in
+      // left: it is mapped to a fresh (unconstrained) term of left.
+      for (auto p : right.m_var_map) {
+        if (left.m_var_map.find(p.first) == left.m_var_map.end()) {
+          if (!left.m_ttbl.map_leq(right.m_ttbl, left.term_of_var(p.first),
+                                   right.term_of_var(p.first), gen_map))
+            return false;
+        }
+      }
       return true;
     }
   }
